@@ -19,7 +19,7 @@ RULE = (
     "a case = one byte string tokenised with PSBaseParser.nexttoken() until PSEOF under every constant "
     "buffer size 1..k and the default (k=9 quick, 33 thorough; sweep cases: 1..len+1 and default). Strings come "
     "from an exhaustive sweep of all strings up to length L over a 31-byte class alphabet (L=3 quick, 4 thorough; "
-    "length 5 over a reduced alphabet in thorough) and from seeded swarm sampling of lengths 1..64, plus (1 case in 300) a token of 4299..8193 bytes of one lexical class under sizes default/1/3/4097, plus (1 case in 4000) a run of 32767..131073 bytes under sizes default/1/4097/whole. "
+    "length 5 over a reduced alphabet in thorough) and from seeded swarm sampling of lengths 1..64, plus (1 case in 300) a token of 4299..8193 bytes of one lexical class under sizes default/1/3/4097, plus (1 case in 4000) a run of 32767..131073 bytes under sizes default/1/4097/whole, plus (4 cases in 100) an opener, a run of 24..96 bytes of the class that may follow it, one foreign byte and the closer further on (CPU-time watchdog: work a regular expression does is bounded too). One case in four, and every enumerated one, is also tokenised with ONE tokenizer object used again: a pass to the end of input, seek(0) and seek(position of a delivered token), each followed by a pass under another buffer size, compared with a fresh tokenizer. "
     "distinct = distinct byte strings; non-trivial = the string yields at least one token and is at least 2 bytes long."
 )
 COMPONENTS_REAL = ["pdfminer.psparser.PSBaseParser (all scanners, fillbuf, nexttoken)"]
@@ -86,14 +86,17 @@ def where(exc):
     return name
 
 
-def tokenize(data, size, ctx):
+def tokenize(data, size, ctx, parser=None, start=None):
+    """One pass to the end of input.  parser: an existing tokenizer object to be used again (seek(start) first)."""
     seams.CHUNK.policy = seams.const_chunks(size) if size else None
     toks = []
     err = None
     budget = STEP_FACTOR * (len(data) + 2)
-    p = PSBaseParser(BytesIO(data))
+    p = parser if parser is not None else PSBaseParser(BytesIO(data))
     seams.CLOCK.start(budget, cpu_s=10.0 + len(data) / 10000.0)
     try:
+        if start is not None:
+            p.seek(start)
         while True:
             pos, t = p.nexttoken()
             toks.append((pos, canon(t)))
@@ -117,7 +120,7 @@ def tokenize(data, size, ctx):
     return toks, err, steps
 
 
-def check_string(data, sizes, ctx):
+def check_string(data, sizes, ctx, reuse=None):
     devs = []
     ref = None
     ref_size = None
@@ -142,6 +145,27 @@ def check_string(data, sizes, ctx):
                     "data=%r: bufsize=%s gives %r but bufsize=%s gives %r" % (data, ref_size or "default", ref, size or "default", toks),
                 )
             )
+    if reuse is not None and ref is not None and not devs:
+        # one tokenizer object used again: after a pass to the end of input, seek() back to the start (and to the
+        # position of a token it delivered) starts a new pass that owes nothing to the state the first one ended in
+        size_a, size_b, k = reuse
+        p = PSBaseParser(BytesIO(data))
+        first, err, _ = tokenize(data, size_a, ctx, parser=p)
+        for start, want in [(0, ref)] + ([(ref[k % len(ref)][0], ref[k % len(ref) :])] if ref else []):
+            again, err2, _ = tokenize(data, size_b, ctx, parser=p, start=start)
+            if err or err2:
+                devs.append(Dev("C14:reuse:%s" % (err or err2), "data=%r: one tokenizer object, pass with bufsize=%s, then seek(%d) and a pass with bufsize=%s" % (data, size_a or "default", start, size_b or "default")))
+                break
+            if again != want:
+                devs.append(
+                    Dev(
+                        "C14:reuse-dependent",
+                        "data=%r: one tokenizer object, after a pass to the end of input (bufsize=%s) seek(%d) and a second pass (bufsize=%s) give %r; a fresh tokenizer gives %r"
+                        % (data, size_a or "default", start, size_b or "default", again[:6], want[:6]),
+                    )
+                )
+                break
+        ctx.probe("one tokenizer object used for several passes (seek)")
     # de-duplicate signatures, keep the first message of each
     seen = {}
     for d in devs:
@@ -171,6 +195,32 @@ def gen_string(tape):
         "delim": [b"<", b">", b"[", b"]", b"{", b"}", b"<", b">", b"a", b"F", b"0", b" ", b"%", b"\n", b"(", b")"],
     }[mix]
     return b"".join(tape.pick(pools, "b") for _ in range(n))
+
+
+def gen_runbreak(tape):
+    """An opener, a run of some dozens of bytes of the class that may follow it (white space interspersed or not), ONE byte
+    that does not belong there, and the closer further on: what a scanner that looks ahead for the end of its token meets
+    when the token is damaged."""
+    opener, cls, closer = tape.pick(
+        [
+            (b"<", [b"4", b"a", b"F", b"0", b"9"], b">"),
+            (b"<", [b"4", b"1", b" ", b"e", b"\n"], b">"),
+            (b"<<", [b"/A ", b"1 ", b"<41>", b"(a)"], b">>"),
+            (b"(", [b"a", b"\\(", b"\\)", b"\\7", b"(", b" "], b")"),
+            (b"/", [b"a", b"#41", b"#4", b"Z", b"#"], b" "),
+            (b"", [b"1", b"7", b"0", b"9"], b" "),
+            (b"-", [b"1", b".", b"0", b"7"], b" "),
+            (b"%", [b"a", b" ", b"%", b"\t"], b"\n"),
+            (b"[", [b"1 ", b"/a", b"[", b"<4>"], b"]"),
+        ],
+        "rb.kind",
+    )
+    n = tape.pick([24, 27, 30, 33, 40, 48, 64, 96], "rb.n")
+    run = b"".join(tape.pick(cls, "rb.b") for _ in range(n)) if tape.coin(1, 2, "rb.mixed") else cls[0] * n
+    foreign = tape.pick([b"g", b"z", b"!", b"\x00", b"\xe9", b"(", b"<", b"/", b"%", b"\\", b"#", b"{", b"-", b"."], "rb.foreign")
+    tail = tape.pick([b"", b" ", b"41", b"\n/x 1", b" a b"], "rb.tail")
+    end = tape.pick([closer, closer, b"", b">>", b">", b")"], "rb.end")
+    return tape.pick([b"", b" ", b"/ID ", b"1 0 obj "], "rb.pre") + opener + run + foreign + tail + end + tape.pick([b"", b" x", b"\n"], "rb.post")
 
 
 RUNS = [0]
@@ -211,13 +261,22 @@ def run(tape, ctx, item=None):
         data = gen_long(tape)
         sizes = [0, 1, 3, 4097]
         ctx.probe("very long token")
+    elif tape.coin(4, 100, "runbreak"):
+        data = gen_runbreak(tape)
+        sizes = [0, 1, 7, 64, len(data) + 3]
+        ctx.probe("long run of one class broken by a foreign byte before the closer")
     else:
         data = gen_string(tape)
         if tape.coin(3, 100, "magic"):
             # byte sequences that other formats give a meaning to at the start of a file are bytes like any others here
             data = tape.pick([b"\xef\xbb\xbf", b"\xff\xfe", b"\xfe\xff", b"\x00\x00\xfe\xff", b"%PDF-1.7\n", b"\x1f\x8b", b"#!"], "magic.bytes") + data
         sizes = [0] + list(range(1, kmax + 1))
-    devs, toks = check_string(data, sizes, ctx)
+    reuse = None
+    if item is None and len(data) < 5000 and tape.coin(25, 100, "reuse"):
+        reuse = (tape.pick(sizes, "reuse.a"), tape.pick(sizes, "reuse.b"), tape.draw(64, "reuse.k"))
+    elif item is not None:
+        reuse = (0, 1 + len(data) % 3, len(data))
+    devs, toks = check_string(data, sizes, ctx, reuse=reuse)
     if item is None and tape.coin(8, 100, "strict"):
         # the library's strict mode is a setting of the object layers above; the tokenizer reads the same tokens under it
         ctx.probe("tokenized again under settings.STRICT")
